@@ -308,6 +308,13 @@ class SF:
             raise Unsupported("division with infinities")
         if z3.is_rational_value(o.v) and not z3.is_true(z3.simplify(o.v == 0)):
             return SF(b_or(self.nan, o.nan), self.v / o.v)
+        from .runtime import current
+        rt = current()
+        if getattr(rt, "div_obligation", False):
+            # kernels whose divisors are positive by construction (EMA): no infinities are created, the divisor being
+            # non-zero becomes a side obligation decided by the solver
+            rt.check("div_by_zero", b_or(o.nan, o.v != 0))
+            return SF(b_or(self.nan, o.nan), self.v / o.v)
         zero = o.v == 0
         nan = b_or(self.nan, o.nan, b_and(zero, self.v == 0))
         return SF(nan, z3.If(zero, z3.RealVal(0), self.v / o.v), b_and(zero, self.v > 0), b_and(zero, self.v < 0))
